@@ -12,7 +12,7 @@
      emptyrule Strict = find_recombination asserts len(positions) == len(recombcost) also for a family without
                         accessible position, where both cost computers return [0] (current code: the run dies),
                EmptyOk = no event for such a family (the repair).
-   run_current = run PerCall PerCall ZeroBased Strict,  run_repaired = run PerRun PerRun OneBased EmptyOk. *)
+   run_old = run PerCall PerCall ZeroBased Strict,  run_phase = run PerRun PerRun OneBased EmptyOk. *)
 From Coq Require Import ZArith List Bool Arith.
 From WH.Model Require Import AuxReports.
 From WH.Proofs Require Import AuxReportsProofs.
@@ -37,17 +37,17 @@ Print Assumptions C20_read_list_covers_run.
 
 (* Repaired writer rule (file opened once per run): the recombination list is the header followed by the
    events of every processed (chromosome, family). *)
-Theorem C20_recombination_list_covers_run_repaired : forall gr pr er o ids vs cs out,
+Theorem C20_recombination_list_covers_run_phase : forall gr pr er o ids vs cs out,
   o_recs o = true -> run gr PerRun pr er o ids vs cs = Some out ->
   exists calls,
     Forall2 (fun ci es => inst_rec_entries er (c_name (fst ci)) (snd ci) = Some es) (instances cs) calls /\
     out_recs out = Some (Header :: map Entry (concat calls)).
-Proof. exact recombination_list_covers_run_repaired. Qed.
-Print Assumptions C20_recombination_list_covers_run_repaired.
+Proof. exact recombination_list_covers_run_phase. Qed.
+Print Assumptions C20_recombination_list_covers_run_phase.
 
 (* Repaired writer rule: the changed-genotype list is the header followed by the changes of every
    processed chromosome. *)
-Theorem C20_changed_genotype_list_covers_run_repaired : forall rr pr er o ids vs cs out,
+Theorem C20_changed_genotype_list_covers_run_phase : forall rr pr er o ids vs cs out,
   o_gts o = true -> run PerRun rr pr er o ids vs cs = Some out ->
   exists calls,
     Forall2 (fun c es => exists wr,
@@ -55,21 +55,21 @@ Theorem C20_changed_genotype_list_covers_run_repaired : forall rr pr er o ids vs
                es = concat (map fst wr))
             (filter c_selected cs) calls /\
     out_gts out = Some (Header :: map Entry (concat calls)).
-Proof. exact changed_genotype_list_covers_run_repaired. Qed.
-Print Assumptions C20_changed_genotype_list_covers_run_repaired.
+Proof. exact changed_genotype_list_covers_run_phase. Qed.
+Print Assumptions C20_changed_genotype_list_covers_run_phase.
 
 (* CURRENT code (finding F9): lists_cover_run is false for both overwritten lists.  Witness: a trio on two
    chromosomes with a recombination and a changed genotype on the first one (wit_cs); both files end up with
    the header only. *)
 Theorem C20_lists_cover_run_refuted :
   exists o ids vs cs out,
-    run_wf ids cs = true /\ run_current o ids vs cs = Some out /\
+    run_wf ids cs = true /\ run_old o ids vs cs = Some out /\
     ~ (exists calls,
-         Forall2 (fun ci es => inst_rec_entries current_emptyrule (c_name (fst ci)) (snd ci) = Some es) (instances cs) calls /\
+         Forall2 (fun ci es => inst_rec_entries old_emptyrule (c_name (fst ci)) (snd ci) = Some es) (instances cs) calls /\
          out_recs out = Some (Header :: map Entry (concat calls))) /\
     ~ (exists calls,
          Forall2 (fun c es => exists wr,
-                    write_records current_posrule (c_name c) vs (targets_of (c_insts c)) None (c_records c) = Some wr /\
+                    write_records old_posrule (c_name c) vs (targets_of (c_insts c)) None (c_records c) = Some wr /\
                     es = concat (map fst wr))
                  (filter c_selected cs) calls /\
          out_gts out = Some (Header :: map Entry (concat calls))).
@@ -152,7 +152,7 @@ Print Assumptions C20_changes_are_diffs_upto_position.
    the differences at their VCF positions (every entry points one base before the changed call). *)
 Theorem C20_changes_are_diffs_refuted :
   exists o ids vs cs out,
-    run_wf ids cs = true /\ run PerRun PerRun current_posrule current_emptyrule o ids vs cs = Some out /\
+    run_wf ids cs = true /\ run PerRun PerRun old_posrule old_emptyrule o ids vs cs = Some out /\
     out_gts out <> Some (Header :: map Entry (run_diffs 1 cs (out_vcf out))).
 Proof. exact changes_are_diffs_refuted. Qed.
 Print Assumptions C20_changes_are_diffs_refuted.
@@ -253,8 +253,8 @@ Theorem C20_run_completes_refuted :
     (forall ci, In ci (instances cs) ->
        length (i_costs (snd ci)) = Nat.max 1 (length (i_positions (snd ci))) /\
        length (i_tv (snd ci)) = length (i_positions (snd ci))) /\
-    run_current o ids vs cs = None /\
-    run_current (mkOpts (o_reads o) (o_gts o) false) ids vs cs <> None.
+    run_old o ids vs cs = None /\
+    run_old (mkOpts (o_reads o) (o_gts o) false) ids vs cs <> None.
 Proof. exact run_completes_refuted. Qed.
 Print Assumptions C20_run_completes_refuted.
 
@@ -264,7 +264,7 @@ Print Assumptions C20_run_completes_refuted.
    second chromosome is processed afterwards *)
 Example C20_example_repaired :
   run_wf wit_ids wit_cs = true /\
-  exists out, run_repaired wit_opts wit_ids wit_samples wit_cs = Some out /\
+  exists out, run_phase wit_opts wit_ids wit_samples wit_cs = Some out /\
     out_recs out = Some [Header; Entry (mkCE 1 10 200 300 0 1 0 0 6)] /\
     out_gts out = Some [Header; Entry (mkGE 3 10 400 7 8 [0; 0] [0; 1])] /\
     option_map (@length _) (out_reads out) = Some 6%nat.
@@ -272,7 +272,7 @@ Proof. split; [vm_compute; reflexivity|]. eexists; split; [vm_compute; reflexivi
 
 (* the same run under the current rules: both lists hold the header only *)
 Example C20_example_current :
-  exists out, run_current wit_opts wit_ids wit_samples wit_cs = Some out /\
+  exists out, run_old wit_opts wit_ids wit_samples wit_cs = Some out /\
     out_recs out = Some [Header] /\ out_gts out = Some [Header] /\
     option_map (@length _) (out_reads out) = Some 6%nat.
 Proof. eexists; split; [vm_compute; reflexivity|]. vm_compute. auto. Qed.
@@ -282,7 +282,7 @@ Proof. eexists; split; [vm_compute; reflexivity|]. vm_compute. auto. Qed.
 Example C20_example_current_one_chromosome :
   let cs := [mkChrom 10 true (wit_recs [99; 199; 299; 399]) [wit_instA];
              mkChrom 11 false (wit_recs [49; 149]) []] in
-  exists out, run_current wit_opts wit_ids wit_samples cs = Some out /\
+  exists out, run_old wit_opts wit_ids wit_samples cs = Some out /\
     out_recs out = Some [Header; Entry (mkCE 1 10 200 300 0 1 0 0 6)] /\
     out_gts out = Some [Header; Entry (mkGE 3 10 399 7 8 [0; 0] [0; 1])].
 Proof. eexists; split; [vm_compute; reflexivity|]. vm_compute. auto. Qed.
@@ -290,7 +290,7 @@ Proof. eexists; split; [vm_compute; reflexivity|]. vm_compute. auto. Qed.
 (* hypothesis of C20_no_changes_without_distrust: the second witness chromosome conforms *)
 Example C20_example_conform :
   superreads_conform (targets_of [wit_instB]) (wit_recs [49; 149]) /\
-  exists out, run_current wit_opts wit_ids wit_samples [mkChrom 11 true (wit_recs [49; 149]) [wit_instB]] = Some out.
+  exists out, run_old wit_opts wit_ids wit_samples [mkChrom 11 true (wit_recs [49; 149]) [wit_instB]] = Some out.
 Proof.
   split.
   - intros t r a b g Ht Hr Hp Hg.
@@ -313,12 +313,12 @@ Example C20_example_total :
   length (i_tv wit_instA) = length (i_positions wit_instA) /\
   length (i_positions wit_instA) = length (i_costs wit_instA) /\
   forallb (fun pc => existsb (Z.eqb (fst pc)) (i_positions wit_instA)) (i_comps wit_instA) = true /\
-  inst_rec_entries current_emptyrule 10 wit_instA = Some [mkCE 1 10 200 300 0 1 0 0 6].
+  inst_rec_entries old_emptyrule 10 wit_instA = Some [mkCE 1 10 200 300 0 1 0 0 6].
 Proof. vm_compute; auto. Qed.
 
 (* the crash witness completes under the repaired rules (header-only recombination list) *)
 Example C20_example_empty_family_repaired :
-  exists out, run_repaired (mkOpts true true true) wit_ids wit_samples wit_empty_cs = Some out /\
+  exists out, run_phase (mkOpts true true true) wit_ids wit_samples wit_empty_cs = Some out /\
     out_recs out = Some [Header].
 Proof. eexists; split; vm_compute; reflexivity. Qed.
 
